@@ -16,7 +16,27 @@ struct L05 : Listener {
         if ((op.code == "fsubx" || op.code == "fsub") && in.o().data().nbFrames() == 0 && (op.arg(1) < 0 ? -op.arg(1) : op.arg(1)) % 3 == 2) extendOnEmpty = true;
     }
     void after(Interp &in, const Op &op, size_t i, const Outcome &o) override {
-        if (o.undocumented) { r.tags.insert("ended-by-undocumented-accepted-deviation"); stop = true; return; }
+        if (o.undocumented) {
+            // the call was accepted although the frame deviates in a way the documentation is silent about; the history ends here. The call was
+            // "successful" all the same: when every filled frame now has one and the same shape, the three views can and must still agree
+            r.tags.insert("ended-by-undocumented-accepted-deviation"); stop = true;
+            if (o.note.rfind("replace", 0) == 0) gaps.erase(static_cast<size_t>(atoll(o.note.c_str() + 8)));
+            Snap s = takeSnap(in.o());
+            bool uniform = true; const SFrame *ref = nullptr;
+            for (size_t f = 0; f < s.frames.size() && uniform; ++f) {
+                const SFrame &F = s.frames[f];
+                if ((F.pts.empty() && F.subs.empty()) || gaps.count(f)) continue;
+                for (auto &sf : F.subs) if (sf.size() != F.subs[0].size()) uniform = false;
+                if (!ref) { ref = &F; continue; }
+                if (F.pts.size() != ref->pts.size() || F.subs.size() != ref->subs.size() || (!F.subs.empty() && F.subs[0].size() != ref->subs[0].size())) uniform = false;
+            }
+            if (uniform && ref && o.note.rfind("extend", 0) != 0) {
+                ++checks; r.tags.insert("agreement-checked-after-accepted-deviation");
+                std::string m = checkAgreement(s, false, &gaps);
+                if (!m.empty()) { r.fail("after op " + std::to_string(i) + " (" + op.code + ", accepted with an undocumented deviation, all filled frames of one shape): " + m); if (extendOnEmpty) r.knownFinding = "KF-D20"; }
+            }
+            return;
+        }
         if (o.skipped) return;
         if (!o.threw) {
             if (o.note.rfind("extend", 0) == 0) { size_t idx = static_cast<size_t>(atoll(o.note.c_str() + 7)); for (size_t g = preFrames; g < idx; ++g) gaps.insert(g); }
